@@ -26,11 +26,11 @@ RULE = ('distinct (x, y) protocol lines with x and y spelled differently on whic
 TRUSTED = ['correspondence harness (pv.engine, pv.proto) and the generators / decoder of pv.props.c14',
            'Lean driver parser (PygModel/Basic.lean, EqDriver.lean)']
 ASSUMPTIONS = ['CPython == on None/bool/int/float/str/datetime/date and on lists/tuples/dicts of them is the reference function Cell.pyEq / pyEqV (sampled by the pyeq op)',
-               'numpy scalars and pd.Timestamp are == to the python values the wire format identifies them with; np.datetime64 scalars are not generated (day-resolution datetime64 == date and == Timestamp although Timestamp != date, so python == itself is not transitive there)',
+               'numpy scalars, pd.Timestamp and pd.Timedelta are == to the python values the wire format identifies them with; np.datetime64 / np.timedelta64 of any unit are the Timestamp / Timedelta of their instant / duration (that is the repair C14-F6, not an assumption about numpy: numpy own == casts units), pd.NaT is one object',
                'np.vectorize(eq) visits every cell of two equally shaped arrays; list(pd.Index) yields the labels as the python / pandas scalars the wire format spells (a NaN among datetime labels is NaT, which the model treats as the NaN label it is spelled as)',
                'object identity (the `x is y` shortcut) is not modelled: every call decodes fresh objects; the shared np.nan object is generated (NF:nan)',
                'numbers are spelled exactly (ints of any size, floats that are multiples of 1/4 - 2**53 and its neighbours included); np.float32 scalars and arrays hold such values exactly',
-               'dict keys are distinct strings; pandas extension arrays, NaT cells, complex / Decimal NaN, None labels and Series names are outside the universe']
+               'dict keys are distinct strings; pandas extension arrays and their pd.NA, datetime64 units finer than ns, tz-aware timestamps, complex / Decimal NaN, None labels and Series names are outside the universe']
 
 D = datetime.datetime
 BIG = 2 ** 53
@@ -147,16 +147,16 @@ def dec(x):
         return a.reshape(shape)
     if head == 'S':
         idx, cells = [dec_cell(i) for i in rest[0]], [dec(c) for c in rest[1:]]
-        s = pd.Series(_column(cells), index=_index(idx))
-        return s
+        return _series(_column(cells), _index(idx))
     if head == 'DF':
         idx, cols = [dec_cell(i) for i in rest[0]], [dec_cell(c) for c in rest[1]]
         cells = [dec(c) for c in rest[2:]]
         n, m = len(idx), len(cols)
         # column by column: an int64 column next to a float64 column holds its ints exactly (C14-F8: eq used to read the frame through ONE
         # float64 array); only a single column mixing floats and ints beyond 2**53 cannot be built as spelled (`_column` keeps it as objects)
-        data = {j: _column([cells[i * m + j] for i in range(n)]) for j in range(m)}
-        df = pd.DataFrame(data, index=_index(idx))
+        index = _index(idx)
+        data = {j: _series(_column([cells[i * m + j] for i in range(n)]), index) for j in range(m)}
+        df = pd.DataFrame(data, index=index)
         df.columns = _index(cols)
         return df
     raise ValueError('bad node head %r' % (head,))
@@ -169,6 +169,11 @@ def _index(labels):
     if any(isinstance(c, float) for c in labels) and any(isinstance(c, int) and not isinstance(c, bool) and abs(c) >= 2 ** 53 for c in labels):
         return pd.Index(labels, dtype=object)
     return pd.Index(labels)
+
+
+def _series(col, index):
+    """a column kept as objects stays objects (pandas would infer datetime64 from an object array of NaT / NaN and turn the NaN into NaT)"""
+    return pd.Series(col, index=index, dtype=object if isinstance(col, np.ndarray) and col.dtype == object else None)
 
 
 def _lossy(cells):
@@ -185,8 +190,10 @@ def _column(cells, as_objects=False):
         return a
     if not cells:
         return np.array([], dtype=float)
-    if _lossy(cells):
-        a = np.empty(len(cells), dtype=object)     # a float column would round the big ints: keep the cells as they are spelled
+    timelike = any(c is pd.NaT or isinstance(c, (datetime.datetime, datetime.timedelta)) for c in cells)
+    if _lossy(cells) or (timelike and any(isinstance(c, float) and c != c for c in cells)):
+        # a float column would round the big ints, a datetime column would turn a float NaN into NaT: keep the cells as they are spelled
+        a = np.empty(len(cells), dtype=object)
         for i, c in enumerate(cells):
             a[i] = c
         return a
@@ -349,8 +356,13 @@ def rand_val(rng, depth):
             return S(idx, *[rand_val(rng, depth - 1) for _ in range(k)])
         return S(idx, *[rand_num(rng, dtype) for _ in range(k)])
     m = rng.choice([0, 1, 1, 2])
+    if dtype == 'x' or rng.random() < 0.3:      # int columns (mostly beyond 2**53) alternating with float columns
+        k, m = rng.choice([1, 2, 3]), rng.choice([2, 2, 3])
+        idx = rng.choice(LABELS)[:k]
+        cell = lambda n: rng.choice([BIG, BIG + 1, BIG + 1, BIG + 2, 1]) if n % m % 2 == 0 else rand_num(rng, 'f')
+        return DF(idx, rng.choice(COLS)[:m], *[cell(n) for n in range(k * m)])
     cols = rng.choice(COLS)[:m]
-    return DF(idx, cols, *[rand_num(rng, 'if'[n % m % 2] if dtype == 'x' else dtype) for n in range(k * m)])
+    return DF(idx, cols, *[rand_num(rng, dtype) for _ in range(k * m)])
 
 
 def _relabel(rng, a):
@@ -447,7 +459,7 @@ def mutate(rng, sx):
         if r < 0.5 and idx:
             i = rng.randrange(len(idx))
             return ['DF', idx[:i] + [_relabel(rng, idx[i])] + idx[i + 1:], cols] + cells
-        big = [i for i, c in enumerate(cells) if c.startswith('I:') and abs(int(c[2:])) >= BIG]
+        big = [i for i, c in enumerate(cells) if isinstance(c, str) and c.startswith('I:') and abs(int(c[2:])) >= BIG]
         if big and r < 0.8:
             i = rng.choice(big)
             return ['DF', idx, cols] + cells[:i] + ['I:%d' % (int(cells[i][2:]) + rng.choice([-1, 1, 2]))] + cells[i + 1:]
